@@ -4,6 +4,7 @@
    from /repo/billiard/common.py on this run computes exactly Model.Restart.step. *)
 From Coq Require Import ZArith List Bool.
 From BV Require Import Lib.PyVal Gen.K_restart Model.Restart Proofs.RestartProofs.
+From BV Require Import Proofs.PoolInv Proofs.PoolTick Proofs.PoolSize.
 From BV Require Gen.G_pool_shape Model.Pool Proofs.PoolSup.
 Import ListNotations.
 Open Scope Z_scope.
@@ -80,6 +81,53 @@ Theorem C11_pool_code_shape :
   G_pool_shape.ack_resets_restart_counter = true.
 Proof. repeat split; reflexivity. Qed.
 Print Assumptions C11_pool_code_shape.
+
+(* ---- pool level (Proofs/PoolSize.v): the limiter of the pool in every reachable state ----
+   it IS the proved limiter run on the pool's own history: one Step per replacement the pass
+   charges (a reaped worker that did not leave with the clean/recycle status, or a worker missing
+   beyond the reaped ones), one Ack per acknowledgement *)
+Theorem C11_pool_limiter_is_the_limiter : forall c tr,
+    Pool.rst (Pool.run c tr)
+    = fst (Restart.run (rs_init (Pool.c_maxr c) (cfg_maxt c)) (limiter_history (Pool.init c) tr)).
+Proof. exact pool_limiter_is_restart_run. Qed.
+Print Assumptions C11_pool_limiter_is_the_limiter.
+
+Theorem C11_pool_limiter_invariant : forall c tr m,
+    Pool.c_maxr c = Some m -> 1 <= m -> Inv m (Pool.rst (Pool.run c tr)).
+Proof. exact pool_limiter_inv. Qed.
+Print Assumptions C11_pool_limiter_invariant.
+
+(* only supervision passes and acknowledgements touch it; an acknowledgement starts the count afresh *)
+Theorem C11_pool_limiter_frame : forall s e, limiter_event e = false -> Pool.rst (fst (Pool.step s e)) = Pool.rst s.
+Proof. exact limiter_frame. Qed.
+Print Assumptions C11_pool_limiter_frame.
+
+Theorem C11_pool_ack_restores : forall s j i p, Pool.rst (fst (Pool.step s (Pool.EAck j i p))) = Restart.ack (Pool.rst s).
+Proof. exact ack_resets_limiter. Qed.
+Print Assumptions C11_pool_ack_restores.
+
+(* the budget at pool level: over any stretch of history inside one window, without
+   acknowledgements and without a refused pass, the replacements charged add up to the counter and
+   never exceed what was left of max_restarts ... *)
+Theorem C11_pool_window_budget : forall c tr0 tr m,
+    Pool.c_maxr c = Some m -> 1 <= m -> calm (Pool.run c tr0) tr ->
+    let s := Pool.run c tr0 in
+    R (Pool.rst (Pool.run c (tr0 ++ tr))) = R (Pool.rst s) + Z.of_nat (abn_total s tr)
+    /\ Z.of_nat (abn_total s tr) <= m - R (Pool.rst s) <= m.
+Proof. exact pool_window_budget. Qed.
+Print Assumptions C11_pool_window_budget.
+
+(* ... and the pass that would exceed it raises RestartFreqExceeded instead of forking *)
+Theorem C11_pool_next_pass_raises : forall m tr s e fuel,
+    1 <= m -> Inv m (Pool.rst s) -> calm s tr ->
+    let s1 := run_from s tr in
+    pass_fuel s1 e = Some fuel -> Pool.pstate s1 = 0 -> in_window (Pool.rst s1) (Pool.now s1) ->
+    m - R (Pool.rst s1) < Z.of_nat (n_charged (pass_codes s1) 0 fuel) ->
+    snd (Pool.step s1 e) = Pool.RExc 10
+    /\ Z.of_nat (abn_total s (tr ++ [e])) = m - R (Pool.rst s)
+    /\ R (Pool.rst (fst (Pool.step s1 e))) = 0 /\ T (Pool.rst (fst (Pool.step s1 e))) = T (Pool.rst s).
+Proof. exact window_budget_then_raise. Qed.
+Print Assumptions C11_pool_next_pass_raises.
 
 (* non-vacuity: a reachable state meeting the hypotheses of C11_budget, and the
    theorem's conclusion computed on it: budget 2, window 5 s opened at t=100 *)
